@@ -181,6 +181,10 @@ def case_st(draw):
             if k and draw(st.integers(0, 3)) == 0:
                 extra.append(["where", [["lt", ["col", k, "b"], ["raw", 77]]]])
                 extra.append(["orderby", [["col", k, "c"]]])
+            if k and draw(st.integers(0, 7)) == 0 and not any(s_[0] in SETOPS for s_ in p["steps"]):
+                # an interval literal as a select item of its own (INTERVAL is a Node, not a Term) next to ORDER BY / GROUP BY lookups
+                extra.append(["select", [["interval", {"days": 1}]]])
+                extra.append(["orderby", [["col", k, "a"]]])
             if k and draw(st.integers(0, 3)) == 0:
                 # columns given by name: resolved against the first FROM item, so they stay after from_ (partial order) but commute with joins
                 extra.append(["orderby", [["py", "b"]]])
@@ -306,6 +310,13 @@ def order_table(cls, words):
 
 def wellformed(cls, sql):
     """-> None or (kind, detail)"""
+    if sql.startswith("EXC:"):
+        # rendering raised: a library exception is a refusal; anything else (AttributeError, TypeError ...) is a statement the builder
+        # accepted and cannot render
+        name = sql[4:]
+        import pypika_tortoise.exceptions as X
+
+        return None if hasattr(X, name) else ("render_raises:" + name, sql)
     toks = lex.lex(sql, cls)
     if any(t.kind == "bad" for t in toks):
         return ("unbalanced_quotes", sql)
